@@ -11,7 +11,8 @@
 (*   call  the operation begins (type, configuration, scripted failure)    *)
 (*   w     one entry written through logger <<g, s, i>>: read back from    *)
 (*         the file and its backups (g = the generation the entry's own    *)
-(*         text names); last = the last one of g in this trace.  The order *)
+(*         text names); last = the last one of g in this trace; late = it  *)
+(*         may have been written after the logger's Close.  The order      *)
 (*         of the entries of one burst is not observable across files and  *)
 (*         immaterial inside a file (entries have one length): they are    *)
 (*         logged files-found-closed first, then by generation             *)
@@ -72,7 +73,12 @@ TRet == /\ IsEvent("ret") /\ Settled
            \/ Ev.res = "err" /\ Fail
         /\ UNCHANGED more
 
+\* an entry whose request was answered at the first attempt was written before the logger's Close:
+\* the server knew the connection to be busy and the drain waited for it.  Only a request that
+\* had to be sent again (its connection was closed under it), was never answered, or ran in a
+\* history with a shortened grace period may have been logged late (late = TRUE)
 Written == /\ Settled
+           /\ Ev.late \/ <<Ev.g, Ev.s, Ev.i>> \notin cls
            /\ Write(Ev.g, Ev.s, Ev.i)
            /\ more' = (IF Ev.last THEN more \ {Ev.g} ELSE more)
 TWrite == IsEvent("w") /\ Written /\ dropped' = dropped
